@@ -60,7 +60,7 @@ CHECKS = {
         cat="translation_validation", ref="4 C10",
         technique="translation validation of every generated CNF: exhaustive assumption probing of all argument subsets against brute-force families, driven by generated and exhaustively enumerated frameworks",
         text="For each generated or enumerated framework with compact ids and each of the 7 encoders (plain and with range), the recorded clause list is validated exactly: for every subset S of the arguments, CNF+S is satisfiable iff S is in the intended family (conflict-free/admissible/complete/stable by brute force); assignment_to_extension returns S; range variables sound and complete; literal layout injective, positive, disjoint from range variables, within n_vars. Exact per program for <=10 arguments; programs are sampled (plus all digraphs on <=3/4 arguments). One case in 40 is a framework of 11-48 arguments probed on the CNF's own model, its neighbours and generated subsets with polynomial membership tests; in 40% of the cases the encoder object is reused after another framework. Large cases (11-320 arguments, incl. frameworks whose attacks are patterns over residues modulo 32/64 lifted to several floors, optionally after a warm-up of the same encoder object on a dense clique) are checked by an exact SAT search for a model of the CNF outside the intended family, re-confirmed polynomially.",
-        note="trusted: oracle.rs families, CadicalSolver as probe (checked by C15); frameworks <=10 arguments"),
+        note="trusted: oracle.rs families, CadicalSolver as probe (checked by C15); exhaustive probing on frameworks <=10 arguments; 11-320 arguments and 8 (quick) / 62 (thorough) frameworks above 2^16 arguments (a motif around multiples of 2^16, the rest isolated) are judged by an exact SAT search for a model outside the family plus probe sets"),
     "C12": dict(
         cat="exploration", ref="4 C12",
         technique="model-based stateful property testing (update histories vs a set model) + exhaustive enumeration of short histories",
